@@ -202,8 +202,16 @@ def value_for(rng, ty, w):
     if ty == "proto":
         return bytes([rng.choice([0, 1, 6, 17, 47, 58, 132, 143, 144, 145, 255, rng.randrange(145), rng.randrange(145), rng.randrange(146, 255)])])
     if ty == "str":
-        if rng.random() < 0.7:
+        r = rng.random()
+        if r < 0.55:
             return bytes(rng.choice(b"abcXYZ019 _-") for _ in range(w))
+        if r < 0.8:
+            # VALID multi-byte UTF-8 of exactly w bytes (2-, 3- and 4-byte sequences, padded with ASCII): characters != bytes
+            out = b""
+            while len(out) < w:
+                ch = rng.choice(["\u00e9", "\u00fc", "\u20ac", "\u65e5", "\U0001d11e", "a", "-", "\u00df", "\uffff", "\u0080"]).encode("utf-8")
+                out += ch if len(out) + len(ch) <= w else b"x"
+            return out[:w]
         return rbytes(rng, w)
     return rbytes(rng, w)
 
@@ -301,7 +309,32 @@ class Exporter:
                     n = 1 if self.lossless else rng.choice([1, 1, 1, 1, 1, 2])
                     recs = [v9_opt_record(rng, t) for _ in range(n)]
                     sets.append({"data": {"id": tid, "recs": recs, "pad": hx(bytes(rng.choice([0, 0, 1, 2, 3])))}})
-        return {"v9": {"m": {"count": len(sets), "sysUpTime": rnat(rng, 4), "unixSecs": rnat(rng, 4), "seq": rnat(rng, 4), "sourceId": rnat(rng, 4), "sets": sets}}}
+        up, secs, seq, sid = self._next_hdr("v9")
+        return {"v9": {"m": {"count": len(sets), "sysUpTime": up, "unixSecs": secs, "seq": seq, "sourceId": sid, "sets": sets}}}
+
+    def _next_hdr(self, key):
+        """header counters of consecutive messages of one exporter EVOLVE: mostly the same source / observation domain, clocks and
+        sequence numbers that advance by small steps — so that they also pass the 32-bit wrap — sometimes step back, sometimes jump;
+        a third of the messages keep fully random values"""
+        rng = self.rng
+        prev = getattr(self, "_hdr_prev", {}).get(key)
+        if prev is None or rng.random() < 0.3:
+            cur = (rnat(rng, 4), rnat(rng, 4), rnat(rng, 4), rnat(rng, 4))
+            if rng.random() < 0.3:
+                cur = (rng.choice([0xFFFFFFFF, 0xFFFF15A0, 0xFFFFFF00, 4294900000]), cur[1], rng.choice([0xFFFFFFFF, 0xFFFFFFFE, cur[2]]), cur[3])   # about to wrap
+        else:
+            def step(v):
+                r = rng.random()
+                if r < 0.6:
+                    return (v + rng.choice([0, 1, 10, 1000, 60000, 61000, 120000])) % 2 ** 32
+                if r < 0.8:
+                    return (v - rng.choice([1, 1000, 59000, 61000, 10 ** 6])) % 2 ** 32
+                return rnat(rng, 4)
+            cur = (step(prev[0]), step(prev[1]), (prev[2] + rng.choice([1, 1, 1, 0, 2, 100])) % 2 ** 32, prev[3] if rng.random() < 0.8 else rnat(rng, 4))
+        if not hasattr(self, "_hdr_prev"):
+            self._hdr_prev = {}
+        self._hdr_prev[key] = cur
+        return cur
 
     def ip_raw_reserved_set(self):
         """an IPFIX message (raw bytes) whose single set uses a reserved / boundary set id with a template-shaped body"""
@@ -353,7 +386,8 @@ class Exporter:
                 size = sum(f["len"] for f in t["fields"]) if fixed else 0
                 pad = rng.randrange(0, min(4, size)) if size > 0 else 0
                 sets.append({"data": {"id": tid, "recs": recs, "pad": hx(bytes(pad))}})
-        return {"ipfix": {"m": {"exportTime": rnat(rng, 4), "seq": rnat(rng, 4), "odid": rnat(rng, 4), "sets": sets}}}
+        _, et, seq, od = self._next_hdr("ipfix")
+        return {"ipfix": {"m": {"exportTime": et, "seq": seq, "odid": od, "sets": sets}}}
 
 
 WANT_ALL = ["export", "common", "json"]
@@ -630,6 +664,20 @@ def fam_chain(rng, n, max_pkts=6, all_partitions=False):
             # a header-only IPFIX message whose length field is below 16 (still a 16-byte self-delimiting packet)
             pos = rng.randrange(0, k + 1)
             msgs.insert(pos, {"raw": {"b": hx((10).to_bytes(2, "big") + rng.choice([0, 1, 8, 15, 16]).to_bytes(2, "big") + rbytes(rng, 12))}})
+            k += 1
+        if rng.random() < 0.2:
+            # an IPFIX message whose LAST set announces more bytes than the message has left (the set is dropped, the message is still a
+            # self-delimiting 16+n byte packet) — not last in the chain, so that bytes of the NEXT packet lie where the set claims to extend
+            tid = rng.choice([400, 401, 256])
+            kind = rng.choice(["template", "data"])
+            body = (tid.to_bytes(2, "big") + (1).to_bytes(2, "big") + (1).to_bytes(2, "big") + (4).to_bytes(2, "big")) if kind == "template" else rbytes(rng, rng.choice([4, 8, 12]))
+            sid = 2 if kind == "template" else rng.choice([256, 257, 300, 400])
+            st_ = sid.to_bytes(2, "big") + (len(body) + 4 + rng.choice([1, 2, 4, 8, 12, 16, 20, 40])).to_bytes(2, "big") + body
+            good = b""
+            if rng.random() < 0.5:
+                good = (2).to_bytes(2, "big") + (12).to_bytes(2, "big") + (500).to_bytes(2, "big") + (1).to_bytes(2, "big") + (2).to_bytes(2, "big") + (4).to_bytes(2, "big")
+            raw = (10).to_bytes(2, "big") + (16 + len(good) + len(st_)).to_bytes(2, "big") + rbytes(rng, 12) + good + st_
+            msgs.insert(rng.randrange(0, k), {"raw": {"b": hx(raw)}})
             k += 1
         if rng.random() < 0.08:
             # a V5 / V7 packet whose record block is longer than 65535 bytes (count * record size leaves 16 bits), not last
